@@ -385,7 +385,7 @@ class Flattener:
             has = s.get('e') is not None
             return self.add({'op': op, 'has': has, 'x': [rpn(s['e'])] if has else []})
         if op == 'time_at':
-            return self.add({'op': op, 'pats': [pattern_json(t) for t in s['texts']], 'x': []})
+            return self.add({'op': op, 'pats': [pattern_json(t) for t in s.get('resolved', s['texts'])], 'x': []})
         if op == 'action':
             xs, ops = [], []
             for o in s['ops']:
